@@ -90,6 +90,27 @@ func shBuild(c shCase) (*bt.Tx, []byte) {
 	return tx, sc
 }
 
+// ownedByCaller: what a hash call returned is the caller's. The caller overwrites the returned slices,
+// asks again, and must get the same answer as before; the original bytes are then put back, so
+// that a library that handed out shared memory is disturbed only for the duration of this case.
+func ownedByCaller(kind string, pre, dig []byte, again func() ([]byte, []byte)) (fs []rep.Finding) {
+	keepPre, keepDig := append([]byte(nil), pre...), append([]byte(nil), dig...)
+	for i := range pre {
+		pre[i] = 0xa5
+	}
+	for i := range dig {
+		dig[i] = 0xa5
+	}
+	pre2, dig2 := again()
+	if !bytes.Equal(pre2, keepPre) || !bytes.Equal(dig2, keepDig) {
+		fs = append(fs, rep.F(kind+"|result-shares-memory-with-an-earlier-result", "after the caller overwrote the slices an earlier call had returned, the same call gives a different preimage / hash",
+			"preimage_before", fmt.Sprintf("%x", keepPre), "preimage_after", fmt.Sprintf("%x", pre2), "hash_before", fmt.Sprintf("%x", keepDig), "hash_after", fmt.Sprintf("%x", dig2)))
+	}
+	copy(pre, keepPre)
+	copy(dig, keepDig)
+	return fs
+}
+
 func c02Check(c shCase) (fs []rep.Finding) {
 	ref := c.R.build()
 	tx, sc := shBuild(c)
@@ -133,6 +154,11 @@ func c02Check(c shCase) (fs []rep.Finding) {
 		fs = append(fs, rep.F("forkid|returned-preimage-changes-later", "a preimage returned earlier changed when further hashes were computed"))
 		pre = held
 	}
+	fs = append(fs, ownedByCaller("forkid", pre, dig, func() ([]byte, []byte) {
+		a, _ := tx.CalcInputPreimage(c.Idx, flag)
+		b, _ := tx.CalcInputSignatureHash(c.Idx, flag)
+		return a, b
+	})...)
 	if !bytes.Equal(pre, want) {
 		fs = append(fs, rep.F(fmt.Sprintf("forkid|preimage|base=%d,acp=%v", c.HT&0x1f&3, c.HT&0x80 != 0), "preimage differs from the BSV replay-protected digest preimage",
 			"got", fmt.Sprintf("%x", pre), "want", fmt.Sprintf("%x", want)))
@@ -193,6 +219,11 @@ func c03Check(c c03Case) (fs []rep.Finding) {
 		fs = append(fs, rep.F("legacy|returned-preimage-changes-later", "a preimage returned earlier changed when further hashes were computed"))
 		pre = held
 	}
+	fs = append(fs, ownedByCaller("legacy", pre, dig, func() ([]byte, []byte) {
+		a, _ := tx.CalcInputPreimageLegacy(c.Idx, flag)
+		b, _ := tx.CalcInputSignatureHash(c.Idx, flag)
+		return a, b
+	})...)
 	want, single := sighashref.LegacyPreimage(ref, int(c.Idx), sc, uint32(c.HT))
 	if single {
 		if !bytes.Equal(dig, sighashref.One) {
